@@ -2,6 +2,7 @@ package html
 
 import (
 	"io"
+	"sync"
 
 	"github.com/elliotchance/gedcom/v39"
 	"github.com/elliotchance/gedcom/v39/html/core"
@@ -121,14 +122,28 @@ func (c *PublishHeader) WriteHTMLTo(w io.Writer) (int64, error) {
 
 var surnames = gedcom.NewStringSet()
 
+// surnamesDocument is the document that surnames was collected from. The pages
+// are rendered by several goroutines, surnamesMutex makes sure that only one of
+// them collects the surnames and that nobody sees them half collected.
+var surnamesDocument *gedcom.Document
+var surnamesMutex sync.Mutex
+
 func getSurnames(document *gedcom.Document) *gedcom.StringSet {
-	if surnames.Len() == 0 {
+	surnamesMutex.Lock()
+	defer surnamesMutex.Unlock()
+
+	if surnamesDocument != document {
+		documentSurnames := gedcom.NewStringSet()
+
 		for _, individual := range document.Individuals() {
 			surname := individual.Name().Surname()
 			if surname != "" {
-				surnames.Add(surname)
+				documentSurnames.Add(surname)
 			}
 		}
+
+		surnames = documentSurnames
+		surnamesDocument = document
 	}
 
 	return surnames
